@@ -56,7 +56,13 @@ type Result struct {
 	VTimeEnd  rt.Duration
 	Threads   int
 	Counters  map[string]int
+	Hung      bool // the execution did not end: a thread runs without ever reaching a scheduling point (the process must not run further executions)
 }
+
+// HangAfter is the real time an execution may spend without a single scheduler transition before it
+// is declared hung (a thread of the code under test spinning without any synchronisation
+// operation: executions normally make thousands of transitions per second).
+var HangAfter = 45 * rt.Second
 
 type failure struct{ kind, sig, msg string }
 
@@ -202,7 +208,37 @@ func Run(cfg Config, prefix []uint8, body func()) *Result {
 	s.cur = t
 	t.started = true
 	go s.threadMain(t, body)
-	<-s.finish
+	hung := false
+	func() {
+		last, idle := -1, rt.Duration(0)
+		tick := rt.NewTicker(5 * rt.Second)
+		defer tick.Stop()
+		for {
+			select {
+			case <-s.finish:
+				return
+			case <-tick.C:
+				// (read without synchronisation: a stale value only delays the verdict)
+				if n := s.steps + s.tseq; n != last {
+					last, idle = n, 0
+				} else if idle += 5 * rt.Second; idle >= HangAfter {
+					hung = true
+					return
+				}
+			}
+		}
+	}()
+	if hung {
+		// no thread is parked in the scheduler and none arrives: the running thread spins
+		name := "?"
+		if c := s.cur; c != nil {
+			name = c.Name
+		}
+		S = nil
+		return &Result{Choices: append([]uint8{}, s.res.Choices...), Points: s.res.Points, Steps: s.steps, Hung: true,
+			Failure:  fmt.Sprintf("the execution made no scheduler transition for %v: thread %q runs without reaching a synchronisation operation (busy loop)", HangAfter, name),
+			FailKind: "livelock", FailSig: "busy-loop:" + name, Obs: strings.Join(s.obs, "|"), Counters: map[string]int{}}
+	}
 	S = nil
 	r := s.res
 	r.Steps = s.steps
